@@ -122,6 +122,27 @@ theorem own_last_applied_is_overwritten :
     ((metaKey "annotations" (strip ownAnnotationTarget)).bind (getKey lastApplied)).isSome = true := by
   decide
 
+/-- What is POSTed is exactly the payload whose annotation was computed: kr8s (constructor
+    namespace, `raw`'s kind/apiVersion) changes nothing, because the forced overlay has already put
+    apiConfig's namespace — given for a namespaced or a cluster-scoped kind alike — kind and
+    apiVersion into the payload BEFORE it was dumped.  So `annotation_truthful` speaks about the
+    object as sent. -/
+theorem create_body_is_the_recorded_payload (enc : JVal → String) (defNs : String) (cmp : JVal → JVal → Bool)
+    (pp : Bool) (rf : Rf) (owner : Owner) (stored : Option JVal) (req : Request)
+    (h : (reconcile enc defNs cmp pp rf owner stored).request = some req) (hm : req.method = .post) :
+    ∃ view p, createPayload enc (forced rf.target) view rf.createOv (rf.owned && owner.ns == rf.ns) owner.ref = some p ∧
+      req.body = some p := by
+  rcases Rf.request_cases enc defNs cmp rf owner stored req (Rf.request_of_reconcile h) with
+    ⟨_, _, _, _, view, p, _, hp, hq⟩ | ⟨live, e, p, _, _, _, _, _, _, hq⟩ | ⟨live, _, hq⟩
+  · exact ⟨view, p, hp, Rf.createRequest_body_eq rf.target rf.api defNs rfl rfl
+      (Rf.createPayload_pinned rf.target enc view _ _ _ hp) hq⟩
+  · simp only [patchRequest, Option.map_eq_some_iff] at hq
+    obtain ⟨n, _, rfl⟩ := hq
+    cases hm
+  · simp only [deleteRequest, Option.map_eq_some_iff] at hq
+    obtain ⟨n, _, rfl⟩ := hq
+    cases hm
+
 /-! ## owner references -/
 
 /-- A created object carries a reference with the parent's uid whenever the function is owning
